@@ -279,8 +279,18 @@ def handle (j : Json) : Except String Json := do
       | _ => CheckText.Verdict.error
     pure (okJ (Json.str v.toString))
   -- text formats (C16/C17)
-  | "parse_dfa" => do pure (exc encDFA (Parse.parseDfa (← getStr j "text").toList))
-  | "parse_nfa" => do pure (exc encNFA (Parse.parseNfa (← getStr j "text").toList))
+  | "parse_dfa" => do
+    let sr := match j.getObjVal? "state_regex" with | .ok (Json.str s) => s | _ => ""
+    let ok : Parse.Word → Bool := match sr with
+      | "set" => CheckText.setStateOk | "product" => CheckText.productStateOk | "word_or_set" => CheckText.wordOrSetStateOk
+      | _ => Parse.isWord
+    pure (exc encDFA (Parse.parseDfa (← getStr j "text").toList ok))
+  | "parse_nfa" => do
+    let sr := match j.getObjVal? "state_regex" with | .ok (Json.str s) => s | _ => ""
+    let ok : Parse.Word → Bool := match sr with
+      | "set" => CheckText.setStateOk | "product" => CheckText.productStateOk | "word_or_set" => CheckText.wordOrSetStateOk
+      | _ => Parse.isWord
+    pure (exc encNFA (Parse.parseNfa (← getStr j "text").toList ok))
   | "parse_pda" => do pure (exc encPDA (Parse.parsePda (← getStr j "text").toList))
   | "parse_tm" => do pure (exc encTM (Parse.parseTm (← getStr j "text").toList))
   | "print_dfa" => do pure (okJ (Json.str (Parse.printDfa (← decDFA (← j.getObjVal? "D")))))
